@@ -46,9 +46,17 @@ fn run_quiet(case: &MacCase) -> (World, RunStats, Option<Violation>) {
 /// What must be equal between the original that keeps running and the device restored from storage.
 fn compare(case: &MacCase, w1: &World, w2: &World) -> Option<(String, String, &'static str)> {
     let mut ctx: &'static str = "";
+    let mut restored = false;
     for (i, (a, b)) in w1.records.iter().zip(w2.records.iter()).enumerate() {
         if matches!(case.ops[i], Op::SaveRestore) {
+            restored = true;
             continue;
+        }
+        if restored && matches!(case.ops[i], Op::Join(_)) {
+            // A join after the restore starts a new session. What goes into it besides the stored session (the
+            // DevNonce, for instance, may be a counter the device keeps outside the session) is not covered by the
+            // statement: the comparison ends here.
+            break;
         }
         if a.result == OpResult::PowerCut {
             // the rest of this procedure never happened on the restored device
